@@ -513,7 +513,13 @@ func genResponse(s *simrt.Sim, p *plan, r *reqSpec) {
 		rs.headers = append(rs.headers, respPool[s.Choose(len(respPool))])
 	}
 	if st == 301 || st == 302 || st == 307 {
-		switch s.Choose(3) {
+		switch s.Choose(6) {
+		case 3:
+			// a redirect without a Location field is forwarded like any other response
+		case 4:
+			rs.headers = append(rs.headers, hdr{"Location", "/first/" + fmt.Sprint(r.idx)}, hdr{"Location", "/second/" + fmt.Sprint(r.idx)})
+		case 5:
+			rs.headers = append(rs.headers, hdr{"Location", util.Pick(s, []string{"http://[::1/x", "://%zz", "http://a b/"})})
 		case 0:
 			rs.headers = append(rs.headers, hdr{"Location", "http://" + r.authority + "/moved/" + fmt.Sprint(r.idx)})
 		case 1:
